@@ -1896,3 +1896,170 @@ R4_SURROGATES_2 = [
     V("M:r4-get-data-public-parameter-surrogateescape", (WR, GETDATA_SIG_OLD, '        self, cache: bool = True, as_text: bool = False, parse_form_data: bool = False, errors: str = "surrogateescape"\n    ) -> bytes | str:\n'), (WR, GETDATA_OLD, "            rv = rv.decode(errors=errors)\n"), expect="R7.3"),
 ]
 _split(R4_SURROGATES_2)
+
+
+# ---------------------------------------------------------------------
+# round 5 (held-out twin C15-13 and own probes of the recently added rule families)
+# -- the `is ASCII` guard idiom: after a dominating test that means `x is ASCII-only` a strict encode of x to ascii / latin-1
+#    cannot raise (and the bytes decode as ASCII); str.isdigit() / isdecimal() + int(x) is NOT such a guard (unicode digits)
+U = "urls.py"; H = "http.py"; W = "wsgi.py"; Q = "sansio/request.py"; F = "formparser.py"; I = "_internal.py"; WR = "wrappers/request.py"; S = "sansio/http.py"; AC = "datastructures/accept.py"
+R5_HEAD = '''    try:
+        data = domain.encode("ascii")
+    except UnicodeEncodeError:
+        # If the domain is not ASCII, it's decoded already.
+        return domain
+'''
+R5_DEF = "def _decode_idna(domain: str) -> str:\n"
+R5_GUARD = '    if not domain.isascii():\n        return domain\n\n'
+R5_AGE_OLD = "    try:\n        seconds = int(value)\n    except ValueError:\n        return None\n    if seconds < 0:\n        return None\n"
+R5_ASCII = [
+    V("r5-isascii-early-return-encode-ascii", (U, R5_HEAD, R5_GUARD + '    data = domain.encode("ascii")\n')),
+    V("r5-isascii-true-branch", (U, R5_HEAD, '    if domain.isascii():\n        data = domain.encode("ascii")\n    else:\n        return domain\n')),
+    V("r5-isascii-conditional-expression", (U, R5_HEAD, '    data = domain.encode("ascii") if domain.isascii() else None\n\n    if data is None:\n        return domain\n')),
+    V("r5-isascii-guard-in-caller-encode-in-helper", (U, R5_HEAD, R5_GUARD + '    data = _idna_bytes(domain)\n'), (U, R5_DEF, 'def _idna_bytes(text: str) -> bytes:\n    return text.encode("ascii")\n\n\n' + R5_DEF)),
+    V("r5-isascii-predicate-helper", (U, R5_HEAD, '    if not _is_ascii(domain):\n        return domain\n\n    data = domain.encode("ascii")\n'), (U, R5_DEF, 'def _is_ascii(text: str) -> bool:\n    """Whether the text can be encoded as ASCII."""\n    return text.isascii()\n\n\n' + R5_DEF)),
+    V("r5-isascii-negative-predicate-helper", (U, R5_HEAD, '    if _has_wide(domain):\n        return domain\n\n    data = domain.encode("ascii")\n'), (U, R5_DEF, 'def _has_wide(text: str) -> bool:\n    return not text.isascii()\n\n\n' + R5_DEF)),
+    V("r5-isascii-flag", (U, R5_HEAD, '    plain = domain.isascii()\n\n    if not plain:\n        return domain\n\n    data = domain.encode("ascii")\n')),
+    V("r5-all-ord-below-128", (U, R5_HEAD, '    if not all(ord(ch) < 128 for ch in domain):\n        return domain\n\n    data = domain.encode("ascii")\n')),
+    V("r5-any-ord-above-127", (U, R5_HEAD, '    if any(ord(ch) > 127 for ch in domain):\n        return domain\n\n    data = domain.encode("ascii")\n')),
+    V("r5-isascii-encode-latin1", (U, R5_HEAD, R5_GUARD + '    data = domain.encode("latin1")\n')),
+    V("r5-isascii-bytes-constructor", (U, R5_HEAD, R5_GUARD + '    data = bytes(domain, "ascii")\n')),
+    V("r5-isascii-on-the-bytes", (U, R5_HEAD, '    data = domain.encode()\n\n    if not data.isascii():\n        return domain\n')),
+    V("r5-isascii-compound-test", (U, R5_HEAD, '    if not domain or not domain.isascii():\n        return domain\n\n    data = domain.encode("ascii")\n')),
+    V("r5-isascii-helper-returns-optional-bytes", (U, R5_HEAD, '    data = _ascii_or_none(domain)\n\n    if data is None:\n        return domain\n'), (U, R5_DEF, 'def _ascii_or_none(text: str) -> bytes | None:\n    return text.encode("ascii") if text.isascii() else None\n\n\n' + R5_DEF)),
+    V("M:r5-isascii-wrong-polarity", (U, R5_HEAD, '    if domain.isascii():\n        return domain\n\n    data = domain.encode("ascii")\n'), expect="R7.1"),
+    V("M:r5-isascii-of-another-value", (U, R5_HEAD, '    if not domain.lower().isascii():\n        return domain\n\n    data = domain.encode("ascii")\n'), expect="R7.1"),
+    V("M:r5-isascii-rebound-before-encode", (U, R5_HEAD, R5_GUARD + '    domain = unquote(domain)\n    data = domain.encode("ascii")\n'), expect="R7.1"),
+    V("M:r5-isascii-and-instead-of-or", (U, R5_HEAD, '    if not domain and not domain.isascii():\n        return domain\n\n    data = domain.encode("ascii")\n'), expect="R7.1"),
+    V("M:r5-isalnum-is-no-ascii-test", (U, R5_HEAD, '    if not domain.isalnum():\n        return domain\n\n    data = domain.encode("ascii")\n'), expect="R7.1"),
+    V("M:r5-all-ord-below-256", (U, R5_HEAD, '    if not all(ord(ch) < 256 for ch in domain):\n        return domain\n\n    data = domain.encode("ascii")\n'), expect="R7.1"),
+    V("M:r5-predicate-helper-tests-printable", (U, R5_HEAD, '    if not _is_ascii(domain):\n        return domain\n\n    data = domain.encode("ascii")\n'), (U, R5_DEF, 'def _is_ascii(text: str) -> bool:\n    return text.isprintable()\n\n\n' + R5_DEF), expect="R7.1"),
+    V("M:r5-negative-predicate-helper-flipped", (U, R5_HEAD, '    if not _has_wide(domain):\n        return domain\n\n    data = domain.encode("ascii")\n'), (U, R5_DEF, 'def _has_wide(text: str) -> bool:\n    return not text.isascii()\n\n\n' + R5_DEF), expect="R7.1"),
+    V("M:r5-encode-helper-second-caller-unguarded", (U, R5_HEAD, R5_GUARD + '    data = _idna_bytes(domain)\n'), (U, R5_DEF, 'def _idna_bytes(text: str) -> bytes:\n    return text.encode("ascii")\n\n\n' + R5_DEF), (U, '        netloc = _decode_idna(parts.hostname)\n', '        netloc = _decode_idna(parts.hostname)\n        _idna_bytes(parts.hostname)\n'), expect="R7.1"),
+    V("M:r5-isascii-does-not-cover-idna", (U, R5_HEAD + '\n    try:\n        # Try decoding in one shot.\n        return data.decode("idna")\n    except UnicodeError:\n        pass\n', R5_GUARD + '    data = domain.encode("ascii")\n    data.decode("idna")\n'), expect="R7.1"),
+    V("M:r5-helper-returns-utf8-of-printable", (U, R5_HEAD, '    data = _ascii_or_none(domain)\n\n    if data is None:\n        return domain\n'), (U, R5_DEF, 'def _ascii_or_none(text: str) -> bytes | None:\n    return text.encode() if text.isprintable() else None\n\n\n' + R5_DEF), expect="R7.1"),
+    V("M:r5-age-isdigit-is-no-guard-for-int", (H, R5_AGE_OLD, "    if not value.isdigit():\n        return None\n\n    seconds = int(value)\n"), expect="R7.1"),
+    V("M:r5-age-isdecimal-is-no-guard-for-int", (H, R5_AGE_OLD, "    if not value.isdecimal():\n        return None\n\n    seconds = int(value)\n"), expect="R7.1"),
+    V("M:r5-age-isascii-alone-is-no-guard-for-int", (H, R5_AGE_OLD, "    if not value.isascii():\n        return None\n\n    seconds = int(value)\n"), expect="R7.1"),
+]
+_split(R5_ASCII)
+
+# -- R7.3: every spelling of a codec call (unbound method, codecs.decode / encode) and every origin of the handler's value
+#    (class attribute, tuple assignment, `**` table, module table, decode moved into a helper)
+R5_DANCE_OLD = 'def _wsgi_decoding_dance(s: str) -> str:\n    return s.encode("latin1").decode(errors="replace")\n'
+R5_FULLPATH_OLD = '        return f"{self.path}?{self.query_string.decode(errors="replace")}"\n'
+R5_GETDATA_OLD = '            rv = rv.decode(errors="replace")\n'
+R5_ARGS_DEC_OLD = '                self.query_string.decode(errors="replace"),\n'
+R5_COOKIE_OLD = '        cookie = cookie.encode("latin1").decode(errors="replace")\n'
+R5_CLS_ATTR = (Q, "    #: the class to use for `args` and `form`.  The default is an", '    #: how undecodable bytes in the query string are handled\n    encoding_errors = "replace"\n\n    #: the class to use for `args` and `form`.  The default is an')
+R5_FP_ATTR = (Q, R5_FULLPATH_OLD, '        return f"{self.path}?{self.query_string.decode(errors=self.encoding_errors)}"\n')
+R5_CODECS_I = (I, "import logging\n", "import codecs\nimport logging\n")
+R5_CODECS_H = (H, "import email.utils\n", "import codecs\nimport email.utils\n")
+R5_ARGS_OLD = '''            parse_qsl(
+                self.query_string.decode(errors="replace"),
+                keep_blank_values=True,
+                errors="werkzeug.url_quote",
+            )
+'''
+R5_FORM_OLD = '''        items = parse_qsl(
+            stream.read().decode(),
+            keep_blank_values=True,
+            errors="werkzeug.url_quote",
+        )
+'''
+R5_PAIRS_AT = "class FormDataParser:\n"
+R5_HANDLERS = [
+    V("r5-handler-class-attribute", R5_FP_ATTR, R5_CLS_ATTR, (Q, R5_ARGS_DEC_OLD, '                self.query_string.decode(errors=self.encoding_errors),\n')),
+    V("r5-dance-unbound-bytes-decode", (I, R5_DANCE_OLD, 'def _wsgi_decoding_dance(s: str) -> str:\n    return bytes.decode(s.encode("latin1"), "utf-8", "replace")\n')),
+    V("r5-dance-codecs-decode", (I, R5_DANCE_OLD, 'def _wsgi_decoding_dance(s: str) -> str:\n    return codecs.decode(s.encode("latin1"), "utf-8", "replace")\n'), R5_CODECS_I),
+    V("r5-cookie-unbound-bytes-decode", (H, R5_COOKIE_OLD, '        cookie = bytes.decode(cookie.encode("latin1"), "utf-8", "replace")\n')),
+    V("r5-cookie-codecs-decode", (H, R5_COOKIE_OLD, '        cookie = codecs.decode(cookie.encode("latin1"), errors="replace")\n'), R5_CODECS_H),
+    V("r5-cookie-unbound-str-encode", (H, R5_COOKIE_OLD, '        cookie = str.encode(cookie, "latin1").decode(errors="replace")\n')),
+    V("r5-dance-handler-tuple-assignment", (I, R5_DANCE_OLD, 'def _wsgi_decoding_dance(s: str) -> str:\n    charset, errors = "utf-8", "replace"\n    return s.encode("latin1").decode(charset, errors)\n')),
+    V("r5-get-data-kwargs-display", (WR, R5_GETDATA_OLD, '            rv = rv.decode(**{"errors": "replace"})\n')),
+    V("r5-dance-handler-module-table", (I, R5_DANCE_OLD, '_ERRORS = {"cgi": "replace"}\n\n\ndef _wsgi_decoding_dance(s: str) -> str:\n    return s.encode("latin1").decode(errors=_ERRORS["cgi"])\n')),
+    V("r5-dance-decode-in-helper", (I, R5_DANCE_OLD, 'def _wsgi_decoding_dance(s: str) -> str:\n    return _lenient_utf8(s.encode("latin1"))\n\n\ndef _lenient_utf8(raw: bytes) -> str:\n    return raw.decode("utf-8", errors="replace")\n')),
+    V("r5-form-parse-qsl-local-handler", (F, R5_FORM_OLD, '        handler = "werkzeug.url_quote"\n        items = parse_qsl(stream.read().decode(), keep_blank_values=True, errors=handler)\n')),
+    V("r5-form-parse-qsl-positional", (F, R5_FORM_OLD, '        items = parse_qsl(stream.read().decode(), True, False, "utf-8", "werkzeug.url_quote")\n')),
+    V("r5-args-parse-qsl-in-method-helper", (Q, R5_ARGS_OLD, "            self._query_items()\n"), (Q, "    @cached_property\n    def access_route(self) -> list[str]:\n", '    def _query_items(self) -> list[tuple[str, str]]:\n        return parse_qsl(\n            self.query_string.decode(errors="replace"),\n            keep_blank_values=True,\n            errors="werkzeug.url_quote",\n        )\n\n    @cached_property\n    def access_route(self) -> list[str]:\n')),
+    V("r5-form-parse-qsl-in-module-helper", (F, R5_FORM_OLD, "        items = _parse_pairs(stream.read().decode())\n"), (F, R5_PAIRS_AT, 'def _parse_pairs(text: str) -> list[tuple[str, str]]:\n    return parse_qsl(text, keep_blank_values=True, errors="werkzeug.url_quote")\n\n\n' + R5_PAIRS_AT)),
+    V("r5-form-parse-qsl-kwargs-table", (F, R5_FORM_OLD, '        options_ = {"keep_blank_values": True, "errors": "werkzeug.url_quote"}\n        items = parse_qsl(stream.read().decode(), **options_)\n')),
+    V("r5-form-parse-qs-flattened", (F, R5_FORM_OLD, '        items = [\n            (key, value)\n            for key, values in parse_qs(stream.read().decode(), keep_blank_values=True, errors="werkzeug.url_quote").items()\n            for value in values\n        ]\n'), (F, "from urllib.parse import parse_qsl\n", "from urllib.parse import parse_qs\n")),
+    V("M:r5-handler-class-attribute-surrogateescape", R5_FP_ATTR, (R5_CLS_ATTR[0], R5_CLS_ATTR[1], R5_CLS_ATTR[2].replace('"replace"', '"surrogateescape"')), expect="R7.3"),
+    V("M:r5-handler-class-attribute-subclass-overrides", R5_FP_ATTR, R5_CLS_ATTR, (WR, "    #: the maximum content length.", '    encoding_errors = "surrogateescape"\n\n    #: the maximum content length.'), expect="R7.3"),
+    V("M:r5-handler-class-attribute-set-in-init", R5_FP_ATTR, R5_CLS_ATTR, (Q, "        self.query_string = query_string\n", '        self.query_string = query_string\n        self.encoding_errors = "surrogatepass"\n'), expect="R7.3"),
+    V("M:r5-dance-unbound-decode-surrogateescape", (I, R5_DANCE_OLD, 'def _wsgi_decoding_dance(s: str) -> str:\n    return bytes.decode(s.encode("latin1"), "utf-8", "surrogateescape")\n'), expect="R7.3"),
+    V("M:r5-cookie-unbound-decode-strict", (H, R5_COOKIE_OLD, '        cookie = bytes.decode(cookie.encode("latin1"), "utf-8")\n'), expect="R7.1"),
+    V("M:r5-dance-codecs-decode-surrogateescape", (I, R5_DANCE_OLD, 'def _wsgi_decoding_dance(s: str) -> str:\n    return codecs.decode(s.encode("latin1"), "utf-8", "surrogateescape")\n'), R5_CODECS_I, expect="R7.3"),
+    V("M:r5-cookie-codecs-decode-strict", (H, R5_COOKIE_OLD, '        cookie = codecs.decode(cookie.encode("latin1"), "utf-8")\n'), R5_CODECS_H, expect="R7.1"),
+    V("M:r5-cookie-unbound-encode-ascii", (H, R5_COOKIE_OLD, '        cookie = str.encode(cookie, "ascii").decode(errors="replace")\n'), expect="R7.1"),
+    V("M:r5-dance-tuple-assignment-surrogateescape", (I, R5_DANCE_OLD, 'def _wsgi_decoding_dance(s: str) -> str:\n    charset, errors = "utf-8", "surrogateescape"\n    return s.encode("latin1").decode(charset, errors)\n'), expect="R7.3"),
+    V("M:r5-dance-tuple-assignment-swapped", (I, R5_DANCE_OLD, 'def _wsgi_decoding_dance(s: str) -> str:\n    errors, charset = "utf-8", "replace"\n    return s.encode("latin1").decode(charset, errors)\n'), expect="R7.3"),
+    V("M:r5-get-data-kwargs-display-surrogateescape", (WR, R5_GETDATA_OLD, '            rv = rv.decode(**{"errors": "surrogateescape"})\n'), expect="R7.3"),
+    V("M:r5-get-data-kwargs-display-strict", (WR, R5_GETDATA_OLD, '            rv = rv.decode(**{"encoding": "utf-8"})\n'), expect="R7.1"),
+    V("M:r5-dance-module-table-surrogateescape", (I, R5_DANCE_OLD, '_ERRORS = {"cgi": "surrogateescape"}\n\n\ndef _wsgi_decoding_dance(s: str) -> str:\n    return s.encode("latin1").decode(errors=_ERRORS["cgi"])\n'), expect="R7.3"),
+    V("M:r5-dance-helper-decodes-strict", (I, R5_DANCE_OLD, 'def _wsgi_decoding_dance(s: str) -> str:\n    return _lenient_utf8(s.encode("latin1"))\n\n\ndef _lenient_utf8(raw: bytes) -> str:\n    return raw.decode("utf-8")\n'), expect="R7.3"),
+    V("M:r5-form-parse-qsl-local-handler-strict", (F, R5_FORM_OLD, '        handler = "strict"\n        items = parse_qsl(stream.read().decode(), keep_blank_values=True, errors=handler)\n'), expect="R7.3"),
+    V("M:r5-form-parse-qsl-helper-default-handler", (F, R5_FORM_OLD, "        items = _parse_pairs(stream.read().decode())\n"), (F, R5_PAIRS_AT, 'def _parse_pairs(text: str) -> list[tuple[str, str]]:\n    return parse_qsl(text, keep_blank_values=True)\n\n\n' + R5_PAIRS_AT), expect="R7.3"),
+    V("M:r5-form-parse-qsl-kwargs-table-without-handler", (F, R5_FORM_OLD, '        options_ = {"keep_blank_values": True}\n        items = parse_qsl(stream.read().decode(), **options_)\n'), expect="R7.3"),
+]
+_split(R5_HANDLERS)
+
+# -- R7.4: the same patterns assembled / flagged / grouped differently stay silent
+R5_PKEY_OLD = '''_parameter_key_re = re.compile(r"([\\w!#$%&'*+\\-.^`|~]+)=", flags=re.ASCII)\n'''
+R5_PTOK_OLD = '''_parameter_token_value_re = re.compile(r"[\\w!#$%&'*+\\-.^`|~]+", flags=re.ASCII)\n'''
+R5_CONT_OLD = '_continuation_re = re.compile(r"\\*(\\d+)$", re.ASCII)\n'
+R5_QV_OLD = '_q_value_re = re.compile(r"-?\\d+(\\.\\d+)?", re.ASCII)\n'
+R5_PINT_OLD = '_plain_int_re = re.compile(r"-?\\d+", re.ASCII)\n'
+R5_ETAG_RE_OLD = '''_etag_re = re.compile(r'([Ww]/)?(?:"(.*?)"|(.*?))(?:\\s*,\\s*|$)')\n'''
+R5_CKQ_OLD = '        "(?:[^\\\\"]|\\\\.)*"\n'
+R5_REGEX = [
+    V("r5-token-class-shared-f-string", (H, R5_PKEY_OLD + R5_PTOK_OLD, '''_TOKEN_CHARS = r"[\\w!#$%&'*+\\-.^`|~]"\n_parameter_key_re = re.compile(f"({_TOKEN_CHARS}+)=", flags=re.ASCII)\n_parameter_token_value_re = re.compile(f"{_TOKEN_CHARS}+", flags=re.ASCII)\n''')),
+    V("r5-token-class-percent-format", (H, R5_PKEY_OLD + R5_PTOK_OLD, '''_TOKEN_CHARS = "[" + "".join([r"\\w", "!#$%&'*+", r"\\-", ".^`|~"]) + "]"\n_parameter_key_re = re.compile("(%s+)=" % _TOKEN_CHARS, flags=re.ASCII)\n_parameter_token_value_re = re.compile("%s+" % _TOKEN_CHARS, flags=re.ASCII)\n''')),
+    V("r5-continuation-inline-flag-named-group", (H, R5_CONT_OLD, '_continuation_re = re.compile(r"(?a)\\*(?P<index>\\d+)$")\n')),
+    V("r5-q-value-verbose", (H, R5_QV_OLD, '_q_value_re = re.compile(\n    r"""\n    -?\\d+        # integer part\n    (\\.\\d+)?    # optional fraction\n    """,\n    re.ASCII | re.VERBOSE,\n)\n')),
+    V("r5-plain-int-possessive", (I, R5_PINT_OLD, '_plain_int_re = re.compile(r"-?\\d++", re.ASCII)\n')),
+    V("r5-plain-int-re-function-with-constant-pattern", (I, R5_PINT_OLD + "\n\ndef _plain_int(value: str) -> int:", '_PLAIN_INT = r"-?\\d+"\n\n\ndef _plain_int(value: str) -> int:'), (I, "    if _plain_int_re.fullmatch(value) is None:\n", "    if re.fullmatch(_PLAIN_INT, value, re.ASCII) is None:\n")),
+    V("r5-cookie-quoted-atomic-group", (S, R5_CKQ_OLD, '        "(?>[^\\\\"]|\\\\.)*"\n')),
+    V("r5-etag-pattern-from-parts", (H, R5_ETAG_RE_OLD, '''_ETAG_WEAK = r"([Ww]/)?"\n_ETAG_VALUE = r'(?:"(.*?)"|(.*?))'\n_ETAG_END = r"(?:\\s*,\\s*|$)"\n_etag_re = re.compile(_ETAG_WEAK + _ETAG_VALUE + _ETAG_END)\n''')),
+    V("r5-continuation-pattern-moved-to-internal", (H, R5_CONT_OLD, ""), (I, R5_PINT_OLD, R5_PINT_OLD + '_continuation_re = re.compile(r"\\*(\\d+)$", re.ASCII)\n'), (H, "from ._internal import _plain_int\n", "from ._internal import _continuation_re\nfrom ._internal import _plain_int\n")),
+    V("M:r5-token-class-f-string-plus-of-plus", (H, R5_PKEY_OLD + R5_PTOK_OLD, '''_TOKEN_CHARS = r"[\\w!#$%&'*+\\-.^`|~]"\n_parameter_key_re = re.compile(f"((?:{_TOKEN_CHARS}+)+)=", flags=re.ASCII)\n_parameter_token_value_re = re.compile(f"{_TOKEN_CHARS}+", flags=re.ASCII)\n'''), expect="R7.4"),
+    V("M:r5-plain-int-re-function-groups-of-digits", (I, R5_PINT_OLD + "\n\ndef _plain_int(value: str) -> int:", '_PLAIN_INT = r"-?(?:\\d+)+"\n\n\ndef _plain_int(value: str) -> int:'), (I, "    if _plain_int_re.fullmatch(value) is None:\n", "    if re.fullmatch(_PLAIN_INT, value, re.ASCII) is None:\n"), expect="R7.4"),
+]
+_split(R5_REGEX)
+
+# -- size / datetime-range site kinds: the bound on a read / allocation and the fields of replace() in other spellings
+R5_TEMP_OLD = "                temp_b = bytearray(remaining)\n"
+R5_FITS_OLD = "            if size <= remaining:\n"
+R5_READ_OLD = "                data = self._stream.read(min(size, remaining))\n"
+R5_CHUNK_OLD = "            data = self.read(1024 * 64)\n"
+R5_RI_HEAD_OLD = "        size = len(b)\n        remaining = self.limit - self._pos\n"
+R5_DT_TAIL = "    if dt.tzinfo is None:\n        return dt.replace(tzinfo=timezone.utc)\n\n    return dt\n"
+R5_SIZES = [
+    V("r5-temp-buffer-helper", (W, R5_TEMP_OLD, "                temp_b = self._scratch(remaining)\n"), (W, "    def readall(self) -> bytes:\n", "    def _scratch(self, length: int) -> bytearray:\n        return bytearray(length)\n\n    def readall(self) -> bytes:\n")),
+    V("r5-fits-test-mirrored-flag", (W, R5_FITS_OLD, "            fits = remaining >= size\n\n            if fits:\n")),
+    V("r5-wanted-size-local", (W, R5_RI_HEAD_OLD, R5_RI_HEAD_OLD + "        want = min(size, remaining)\n"), (W, R5_TEMP_OLD, "                temp_b = bytearray(want)\n"), (W, R5_READ_OLD, "                data = self._stream.read(want)\n")),
+    V("r5-read-min-as-conditional-expression", (W, R5_READ_OLD, "                data = self._stream.read(size if size < remaining else remaining)\n")),
+    V("r5-read-min-as-conditional-expression-le", (W, R5_READ_OLD, "                data = self._stream.read(remaining if remaining <= size else size)\n")),
+    V("r5-read-clamped-local", (W, R5_READ_OLD, "                count = size\n\n                if count > remaining:\n                    count = remaining\n\n                data = self._stream.read(count)\n")),
+    V("r5-chunk-size-class-constant", (W, R5_CHUNK_OLD, "            data = self.read(self._chunk_size)\n"), (W, "    def readall(self) -> bytes:\n", "    _chunk_size = 1024 * 64\n\n    def readall(self) -> bytes:\n")),
+    V("r5-date-replace-kwargs-display", (H, R5_DT_TAIL, "    if dt.tzinfo is None:\n        return dt.replace(**{\"tzinfo\": timezone.utc})\n\n    return dt\n")),
+    V("r5-date-replace-tzinfo-or", (H, R5_DT_TAIL, "    return dt.replace(tzinfo=dt.tzinfo or timezone.utc)\n")),
+    V("r5-date-combine", (H, R5_DT_TAIL, "    if dt.tzinfo is None:\n        return datetime.combine(dt.date(), dt.time(), timezone.utc)\n\n    return dt\n")),
+    V("M:r5-read-remaining", (W, R5_READ_OLD, "                data = self._stream.read(remaining)\n"), expect="R7.1"),
+    V("M:r5-read-max-as-conditional-expression", (W, R5_READ_OLD, "                data = self._stream.read(size if size > remaining else remaining)\n"), expect="R7.1"),
+    V("M:r5-read-conditional-expression-arms-swapped", (W, R5_READ_OLD, "                data = self._stream.read(remaining if size < remaining else size)\n"), expect="R7.1"),
+    V("M:r5-read-clamped-the-wrong-way", (W, R5_READ_OLD, "                count = size\n\n                if count < remaining:\n                    count = remaining\n\n                data = self._stream.read(count)\n"), expect="R7.1"),
+    V("M:r5-date-replace-kwargs-display-year", (H, R5_DT_TAIL, "    if dt.tzinfo is None:\n        return dt.replace(**{\"tzinfo\": timezone.utc, \"year\": max(dt.year, 1970)})\n\n    return dt\n"), expect="R7.1"),
+]
+_split(R5_SIZES)
+
+# -- an ASCII start says nothing about a buffer / list that grows in place afterwards
+R5_BUFFERS = [
+    V("r5-isascii-bytearray-constructor-copy", (U, R5_HEAD, R5_GUARD + '    data = bytes(bytearray(domain, "ascii"))\n')),
+    V("r5-isascii-joined-tuple-of-encoded", (U, R5_HEAD, R5_GUARD + '    data = b"".join((domain.encode("ascii"),))\n')),
+    V("M:r5-ascii-buffer-extended-with-utf8", (U, R5_HEAD, '    buf = bytearray(b"")\n    buf.extend(domain.encode())\n    data = bytes(buf)\n'), expect="R7.1"),
+    V("M:r5-ascii-list-appended-with-utf8", (U, R5_HEAD, '    pieces = [b"x"]\n    pieces.append(domain.encode())\n    data = b"".join(pieces)\n'), expect="R7.1"),
+    V("M:r5-isascii-buffer-grows-after-the-test", (U, R5_HEAD, '    buf = bytearray(domain.encode())\n\n    if not buf.isascii():\n        return domain\n\n    buf.extend(unquote(domain).encode())\n    data = bytes(buf)\n'), expect="R7.1"),
+]
+_split(R5_BUFFERS)
